@@ -555,3 +555,57 @@ class handover_FDD(_Handover):
     cls = "pyoma2.algorithms.fdd.FDD"
     fields = ("S_val", "S_vec", "freq")
     outmap = {"Fn": 0, "Phi": 1}
+
+
+# ----------------------------------------------------------------------------------
+# the pLSCF variant of the dialog shares the SSI handlers; its own proofs (the literal "pLSCF" decides branches)
+# ----------------------------------------------------------------------------------
+
+@register
+class sort_pLSCF(_Sort):
+    name = "pLSCF"
+    plot = "pLSCF"
+
+
+@register
+class get_closest_pole_pLSCF(get_closest_pole.__class__ if False else Contract):
+    qualname = CLS + ".get_closest_pole"
+    name = "pLSCF"
+    props = ("C16",)
+    generic_replay = False
+    bounded_driver = {"driver": "c16_dialog", "inputs": {"plot": "pLSCF"}}
+
+    def witness(self, o):
+        return dict(self.bounded_driver)
+
+    def setup(self, c):
+        s = sfp(c, "pLSCF")
+        s.fields["x_data_pole"] = S.real("xdata", py=False)
+        s.fields["y_data_pole"] = [S.real("ydata", py=False)]
+        c.assume(s.fields["pole_ind"].length == s.fields["sel_freq"].length)
+        return {"self": s, "plot": "pLSCF"}
+
+    def spec(me, c, self, plot):
+        pick_pole(self)
+        return None
+
+
+@register
+class on_click_pLSCF(_Click):
+    qualname = CLS + ".on_click_SSI"
+    name = "pLSCF"
+    plot = "pLSCF"
+
+    def setup(self, c):
+        s = sfp(c, "pLSCF")
+        c.assume(s.fields["pole_ind"].length == s.fields["sel_freq"].length)
+        return {"self": s, "event": event(c), "plot": "pLSCF"}
+
+    def spec(me, c, self, event, plot):
+        return click_spec(c, self, event, pick_pole)
+
+
+@register
+class init_pLSCF(_Init):
+    name = "pLSCF"
+    plot = "pLSCF"
